@@ -131,7 +131,14 @@ type mRes struct {
 	lastErr    string
 	delIgnored bool
 	chans      map[int]bool
-	viv        int // valid/invalid/valid tracker
+	// opt: existing non-active channels on which the subscription is
+	// optional and not yet observable (the resource was first watched while
+	// the client was on a fallback server and that channel had no usable
+	// stream). gRFC A71 / the C++ client subscribe such a resource on every
+	// channel of the authority, grpc-go only on the active one; the branch is
+	// resolved from the first request that becomes observable.
+	opt map[int]bool
+	viv int // valid/invalid/valid tracker
 }
 
 type expReq struct {
@@ -167,6 +174,9 @@ type model struct {
 	exp       *expect
 	st        *Stats
 	known     map[string]string
+	// obsReq reports whether a request of type t listing name was sent to
+	// server srv during the current op.
+	obsReq func(srv, t int, name string) bool
 }
 
 func (m *model) names(mt *mType) []string {
@@ -228,6 +238,11 @@ func (m *model) closeChannel(i int) {
 		return
 	}
 	m.srv[i] = freshServer()
+	for t := 0; t < 2; t++ {
+		for _, r := range m.res[t] {
+			delete(r.opt, i)
+		}
+	}
 	m.exp.closes = append(m.exp.closes, i)
 	m.exp.loose[i] = true
 	m.st.ChannelCloses++
@@ -242,9 +257,20 @@ func (m *model) watch(w *Watcher) {
 	}
 	r := m.res[w.T][w.Name]
 	if r == nil {
-		r = &mRes{status: stRequested, chans: map[int]bool{m.active: true}}
+		r = &mRes{status: stRequested, chans: map[int]bool{m.active: true}, opt: map[int]bool{}}
 		m.res[w.T][w.Name] = r
 		m.subscribe(m.active, w.T, w.Name)
+		for j := 0; j < m.n; j++ {
+			if j == m.active || m.srv[j].conn == cNone {
+				continue
+			}
+			if !m.sendable(j) {
+				r.opt[j] = true
+			} else if m.obsReq(j, w.T, w.Name) {
+				m.subscribe(j, w.T, w.Name)
+				r.chans[j] = true
+			}
+		}
 	}
 	r.watchers = append(r.watchers, w)
 	if r.cache != "" {
@@ -294,12 +320,12 @@ func (m *model) unwatch(w *Watcher) {
 	}
 }
 
-func (m *model) propagateConnErr() {
+func (m *model) propagateConnErr(optional bool) {
 	for t := 0; t < 2; t++ {
 		for _, name := range sortedKeys(m.res[t]) {
 			r := m.res[t][name]
 			for _, w := range r.watchers {
-				m.exp.calls = append(m.exp.calls, expCall{w: w, kind: errKind(r)})
+				m.exp.calls = append(m.exp.calls, expCall{w: w, kind: errKind(r), optional: optional})
 			}
 		}
 	}
@@ -391,7 +417,9 @@ func (m *model) streamFailed(i int, afterMsg bool, observedBuild int) {
 		}
 		return
 	}
-	m.propagateConnErr()
+	// A failure of a server other than the active one: the statement does not
+	// say whether watchers hear about it (grpc-go: yes, C++: no).
+	m.propagateConnErr(i != m.active)
 }
 
 func (m *model) revertTo(i int) {
@@ -529,6 +557,20 @@ func (m *model) granted(i int) {
 	s.nodeSent = false
 	s.stalled = false
 	s.streams++
+	for t := 0; t < 2; t++ {
+		for _, name := range sortedKeys(m.res[t]) {
+			r := m.res[t][name]
+			if !r.opt[i] {
+				continue
+			}
+			delete(r.opt, i)
+			if m.obsReq(i, t, name) {
+				s.types[t].hasState = true
+				s.types[t].subs[name] = &mWatchState{state: wsStarted}
+				r.chans[i] = true
+			}
+		}
+	}
 	withSubs := false
 	for t := 0; t < 2; t++ {
 		mt := s.types[t]
@@ -768,6 +810,20 @@ func (e *exec) step(op Op) bool {
 	m, rig := e.m, e.rig
 	m.exp = &expect{loose: map[int]bool{}}
 	r0, c0, h0 := rig.Snapshot()
+	m.obsReq = func(srv, t int, name string) bool {
+		reqs, _, _ := rig.Since(r0, c0, h0)
+		for _, r := range reqs {
+			if r.Server != srv || r.TypeURL != Types[t].URL {
+				continue
+			}
+			for _, n := range r.Names {
+				if n == name {
+					return true
+				}
+			}
+		}
+		return false
+	}
 	m.now = time.Now()
 	applied := true
 	needSleep := false
@@ -940,7 +996,8 @@ func abs(x int) int {
 // builtSince returns the server index of the (last) channel built since the
 // snapshot, -1 if none.
 func (e *exec) builtSince(h0 int) int {
-	_, _, ch := e.rig.Since(len(e.rig.Requests), len(e.rig.Calls), h0)
+	r, c, _ := e.rig.Snapshot()
+	_, _, ch := e.rig.Since(r, c, h0)
 	b := -1
 	for _, c := range ch {
 		if c.Kind == "build" {
@@ -1184,7 +1241,7 @@ func (e *exec) verify(r0, c0, h0 int) bool {
 	if m.active >= 0 {
 		for t := 0; t < 2; t++ {
 			for _, name := range sortedKeys(m.res[t]) {
-				if _, ok := m.srv[m.active].types[t].subs[name]; !ok {
+				if _, ok := m.srv[m.active].types[t].subs[name]; !ok && !m.res[t][name].opt[m.active] {
 					m.known[SigOrphanAfterRevert] = fmt.Sprintf("resource %s/%s is watched but not subscribed on the active server %d (nor, after the revert, on any other)", Types[t].Name, name, m.active)
 				}
 			}
